@@ -153,10 +153,13 @@ class SubsetGroup(HubListener):
         self.subsets.append(s)
 
     def _remove_data(self, data):
-        # remove a data object from group
+        # remove a data object from group, and detach the group's subset
+        # from the data object so that the data does not end up with a stale
+        # (or duplicate) subset if it is added to a collection again later
         for s in list(self.subsets):
             if s.data is data:
                 self.subsets.remove(s)
+                s.delete()
 
     def register_to_hub(self, hub):
 
